@@ -39,6 +39,9 @@ import (
 //	  columns/pknames = node of cells; rows = node of rows: the CSV AFTER parsing
 //	  (Run re-serialises them with c01CSV and checks that encoding/csv parses them back)
 //	  arrival = scheduling keys used by the model only; workers/delimiter used by Go only;
+//	  an optional fourth Go-only parameter style selects how Run writes the CSV text (bit 1 = raw:
+//	  cells quoted only when they hold the delimiter, a quote, CR or LF, so leading/trailing blanks
+//	  reach the parser unquoted; bit 2 = CRLF line ends; bit 4 = no final line end);
 //	  an optional third Go-only parameter deps = ((offset ...) ...) forces the worker schedule:
 //	  block k is written only after the blocks deps[k] have been completed (gated store)
 //	observation = (status columns pk rowcount (block ...) export)
@@ -167,6 +170,7 @@ type c01Case struct {
 	Workers int
 	Delim   rune
 	Deps    [][]int // forced schedule: block k is completed only after the blocks Deps[k] (Go only)
+	Style   int     // CSV text style (c01StyleRaw | c01StyleCRLF | c01StyleNoFinal), Go only
 	Aux     *xt.T   // producer-specific extra input of the C03 kinds 4 and 6 (Go only), eighth element of the case
 }
 
@@ -191,7 +195,7 @@ func c01DecodeDeps(t *xt.T) [][]int {
 
 func c01Tree(k c01Case) *xt.T {
 	t := xt.N(xt.LI(k.Kind), xt.Strs(k.Columns), xt.Strs(k.PKNames), c19Rows(k.Rows), xt.L(k.RunSize),
-		xt.Ints(k.Arrival), xt.N(xt.LI(k.Workers), xt.LI(int(k.Delim)), c01Deps(k.Deps)))
+		xt.Ints(k.Arrival), xt.N(xt.LI(k.Workers), xt.LI(int(k.Delim)), c01Deps(k.Deps), xt.LI(k.Style)))
 	if k.Aux != nil {
 		t.Add(k.Aux)
 	}
@@ -214,6 +218,9 @@ func c01Decode(c *xt.T) c01Case {
 	}
 	if len(c.Kids[6].Kids) > 2 {
 		k.Deps = c01DecodeDeps(c.Kids[6].Kids[2])
+	}
+	if len(c.Kids[6].Kids) > 3 {
+		k.Style = int(c.Kids[6].Kids[3].N)
 	}
 	if len(c.Kids) > 7 {
 		k.Aux = c.Kids[7]
@@ -250,6 +257,49 @@ func c01CSV(records [][]string, delim rune) []byte {
 	return b.Bytes()
 }
 
+// CSV text styles (Go-only case parameter): how Run writes the file the implementation reads.
+const (
+	c01StyleRaw     = 1 // hand-formatted: a cell is quoted only when it holds the delimiter, a quote, CR or LF
+	c01StyleCRLF    = 2 // records end with CRLF
+	c01StyleNoFinal = 4 // no line end after the last record
+)
+
+// c01Text serialises records in the given style.  In the raw style cells that begin or end
+// with blanks or consist of blanks only reach the parser unquoted; the rows the case expects
+// are the generator's own cells (a CSV parser must not trim them).
+func c01Text(records [][]string, delim rune, style int) []byte {
+	if style&c01StyleRaw == 0 && style == 0 {
+		return c01CSV(records, delim)
+	}
+	nl := "\n"
+	if style&c01StyleCRLF != 0 {
+		nl = "\r\n"
+	}
+	var b bytes.Buffer
+	for ri, rec := range records {
+		for i, f := range rec {
+			if i > 0 {
+				b.WriteRune(delim)
+			}
+			quote := strings.ContainsRune(f, delim) || strings.ContainsAny(f, "\"\r\n") || f == "" && len(rec) == 1
+			if style&c01StyleRaw == 0 {
+				quote = quote || f == "" || strings.Trim(f, "abcdefghijklmnopqrstuvwxyzABCDEFGHIJKLMNOPQRSTUVWXYZ0123456789_-") != ""
+			}
+			if quote {
+				b.WriteByte('"')
+				b.WriteString(strings.ReplaceAll(f, `"`, `""`))
+				b.WriteByte('"')
+			} else {
+				b.WriteString(f)
+			}
+		}
+		if ri < len(records)-1 || style&c01StyleNoFinal == 0 {
+			b.WriteString(nl)
+		}
+	}
+	return b.Bytes()
+}
+
 func c01Parse(text []byte, delim rune) ([][]string, error) {
 	r := csv.NewReader(bytes.NewReader(text))
 	r.Comma = delim
@@ -260,8 +310,12 @@ func c01Parse(text []byte, delim rune) ([][]string, error) {
 // c01Stable returns the records as encoding/csv reads them back (\r\n inside a quoted
 // field becomes \n), iterated to a fixpoint; ok=false if there is none.
 func c01Stable(records [][]string, delim rune) ([][]string, bool) {
+	return c01StableStyle(records, delim, 0)
+}
+
+func c01StableStyle(records [][]string, delim rune, style int) ([][]string, bool) {
 	for it := 0; it < 4; it++ {
-		back, err := c01Parse(c01CSV(records, delim), delim)
+		back, err := c01Parse(c01Text(records, delim, style), delim)
 		if err != nil || len(back) != len(records) {
 			return nil, false
 		}
@@ -534,7 +588,7 @@ func c01IngestOnce(ctx *Ctx, k c01Case) *c01Result {
 	}
 	if k.Kind != 2 {
 		records := append([][]string{k.Columns}, k.Rows...)
-		text = c01CSV(records, k.Delim)
+		text = c01Text(records, k.Delim, k.Style)
 		back, err := c01Parse(text, k.Delim)
 		if err != nil || len(back) != len(records) {
 			panic(fmt.Sprintf("case is not a CSV fixpoint: %v (%d vs %d records)", err, len(back), len(records)))
@@ -943,7 +997,16 @@ type c01Gen struct {
 }
 
 func (g *c01Gen) add(tag string, nt bool, k c01Case) {
-	recs, ok := c01Stable(append([][]string{k.Columns}, k.Rows...), k.Delim)
+	orig := append([][]string{k.Columns}, k.Rows...)
+	recs, ok := c01StableStyle(orig, k.Delim, k.Style)
+	if ok && k.Style&c01StyleRaw != 0 {
+		// raw text: the expectation is the generator's own cell list, never a re-parse
+		for i := range recs {
+			if c19KeyString(recs[i]) != c19KeyString(orig[i]) {
+				ok = false
+			}
+		}
+	}
 	if !ok {
 		g.ctx.Count("gen_not_csv_stable_skipped")
 		return
@@ -1164,34 +1227,94 @@ func (g *c01Gen) forcedCases(count int) []c01Case {
 	return out
 }
 
+var c01BlankCells = []string{"", " ", "  ", "\t", " a", "a ", " a ", "a", "7", " 7", "7 ", " 7 ", "\t7", "7\t", "x y", " x,y", "q\"q ", " \n", "A", " ;", "| "}
+var c01BlankNames = []string{"a", " a", "a ", "\tb", "b", " c ", "d", "e\t", " ", "f g"}
+
+// rawTable builds a table whose text is written by hand (style raw): cells and column names
+// that start / end with blanks, cells of blanks only, keys that differ only by blanks.
+func (g *c01Gen) rawTable(kind int) c01Case {
+	ctx := g.ctx
+	ncols := 1 + ctx.Pick(4)
+	perm := ctx.Rng.Perm(len(c01BlankNames))
+	cols := make([]string, ncols)
+	for i := range cols {
+		cols[i] = c01BlankNames[perm[i]]
+	}
+	var pk []string
+	if ctx.Pick(6) != 0 {
+		p := ctx.Rng.Perm(ncols)
+		for _, u := range p[:1+ctx.Pick(ncols)] {
+			pk = append(pk, cols[u])
+		}
+	}
+	nrows := 1 + ctx.Pick(30)
+	if ctx.Pick(15) == 0 {
+		nrows = 250 + ctx.Pick(20)
+	}
+	alpha := 4 + ctx.Pick(len(c01BlankCells)-3)
+	rows := make([][]string, nrows)
+	for j := range rows {
+		r := make([]string, ncols)
+		for cidx := range r {
+			r[cidx] = c01BlankCells[ctx.Pick(alpha)]
+			if nrows > 40 && cidx == 0 {
+				r[cidx] = fmt.Sprintf("%s%d%s", []string{"", " ", "\t"}[ctx.Pick(3)], j/3, []string{"", " ", "  "}[ctx.Pick(3)])
+			}
+		}
+		rows[j] = r
+	}
+	style := c01StyleRaw
+	if ctx.Pick(2) == 0 {
+		style |= c01StyleCRLF
+		ctx.Count("raw_text_crlf")
+	}
+	if ctx.Pick(3) == 0 {
+		style |= c01StyleNoFinal
+		ctx.Count("raw_text_no_final_newline")
+	}
+	ctx.Count("raw_text_tables")
+	return c01Case{Kind: kind, Columns: cols, PKNames: pk, Rows: rows, RunSize: g.runSize(), Arrival: g.arrival(),
+		Workers: c01Workers[ctx.Pick(len(c01Workers))], Delim: c01Delims[ctx.Pick(len(c01Delims))], Style: style}
+}
+
+// c01CLINames reports whether the column names can be passed through "-p a,b".
+func c01CLINames(cols []string) bool {
+	for _, c := range cols {
+		if c == "" || strings.ContainsAny(c, ",\"\r\n") {
+			return false
+		}
+	}
+	return true
+}
+
 func genC01(ctx *Ctx) []Case {
 	g := &c01Gen{ctx: ctx, huge: uint64(1) << 40}
 	ab := []string{"a", "b"}
 	// ---- witnesses ----
-	g.add("witness", true, c01Case{nil, 0, ab, []string{"a"}, [][]string{{"", "1"}, {"x", "2"}}, g.huge, nil, 1, ',', nil, nil})    // 8d128f5
-	g.add("witness", true, c01Case{nil, 0, ab, []string{"a"}, [][]string{{"", "1"}, {"x", "2"}}, 1, []int{1, 0}, 4, ';', nil, nil}) // spilled
+	g.add("witness", true, c01Case{nil, 0, ab, []string{"a"}, [][]string{{"", "1"}, {"x", "2"}}, g.huge, nil, 1, ',', nil, 0, nil})    // 8d128f5
+	g.add("witness", true, c01Case{nil, 0, ab, []string{"a"}, [][]string{{"", "1"}, {"x", "2"}}, 1, []int{1, 0}, 4, ';', nil, 0, nil}) // spilled
 	big := func(n int) string { return strings.Repeat("z", n) }
 	g.add("witness", true, c01Case{nil, 0, []string{"a", "b", "c", "d"}, []string{"a"},
-		[][]string{{"k", big(30000), big(30000), big(30000)}, {"j", "1", "2", "3"}}, g.huge, nil, 1, ',', nil, nil}) // eebb087 row > 64KiB
-	g.add("witness", true, c01Case{nil, 0, ab, []string{"a"}, [][]string{{"k", big(65535)}, {"j", "1"}}, 100, nil, 3, ',', nil, nil})
-	g.add("witness", true, c01Case{nil, 0, ab, []string{"a"}, [][]string{{"k", big(65536)}, {"j", "1"}}, g.huge, nil, 1, ',', nil, nil}) // refused
-	g.add("witness", true, c01Case{nil, 0, ab, []string{"a"}, [][]string{{"j", "1"}, {"k", big(70000)}}, 1, nil, 4, ',', nil, nil})      // 9a70dee
-	g.add("witness", true, c01Case{nil, 0, ab, []string{"nope"}, [][]string{{"j", "1"}}, 1, nil, 1, ',', nil, nil})                      // unknown key
-	g.add("witness", true, c01Case{nil, 0, []string{"a"}, []string{"a"}, [][]string{{""}, {"x"}}, g.huge, nil, 1, ',', nil, nil})
-	g.add("witness", true, c01Case{nil, 0, []string{"unnamed__1", "", "k"}, []string{"k"}, [][]string{{"1", "2", "b"}, {"3", "4", "a"}}, g.huge, nil, 1, ',', nil, nil}) // renamed to unnamed__2
-	g.add("witness", true, c01Case{nil, 0, ab, []string{"a", "a"}, [][]string{{"2", "x"}, {"1", "y"}, {"2", "z"}}, 1, nil, 4, ',', nil, nil})                            // e2f1265 key column named twice: refused
-	g.add("witness", true, c01Case{nil, 2, ab, []string{"b", "a", "b"}, [][]string{{"2", "x"}, {"1", "y"}}, 4096, nil, 1, ',', nil, nil})
-	g.add("witness", true, c01Case{nil, 0, []string{"a", "a", "b"}, []string{"a"}, [][]string{{"1", "2", "x"}, {"1", "1", "y"}, {"1", "2", "z"}}, 1, nil, 1, ',', nil, nil}) // KeyIndices takes every matching column
-	g.add("witness", true, c01Case{nil, 0, []string{"", "k", ""}, []string{"k"}, [][]string{{"1", "b", "2"}, {"3", "a", "4"}}, 1, nil, 1, ',', nil, nil})                    // two empty names
-	g.add("witness", true, c01Case{nil, 1, []string{"a"}, []string{"a"}, [][]string{{""}, {"x"}}, 4096, nil, 1, ',', nil, nil})                                              // known finding (export)
-	g.add("witness", true, c01Case{nil, 1, ab, []string{"a"}, [][]string{{"", ""}, {"x", "y"}}, 4096, nil, 1, ',', nil, nil})
+		[][]string{{"k", big(30000), big(30000), big(30000)}, {"j", "1", "2", "3"}}, g.huge, nil, 1, ',', nil, 0, nil}) // eebb087 row > 64KiB
+	g.add("witness", true, c01Case{nil, 0, ab, []string{"a"}, [][]string{{"k", big(65535)}, {"j", "1"}}, 100, nil, 3, ',', nil, 0, nil})
+	g.add("witness", true, c01Case{nil, 0, ab, []string{"a"}, [][]string{{"k", big(65536)}, {"j", "1"}}, g.huge, nil, 1, ',', nil, 0, nil}) // refused
+	g.add("witness", true, c01Case{nil, 0, ab, []string{"a"}, [][]string{{"j", "1"}, {"k", big(70000)}}, 1, nil, 4, ',', nil, 0, nil})      // 9a70dee
+	g.add("witness", true, c01Case{nil, 0, ab, []string{"nope"}, [][]string{{"j", "1"}}, 1, nil, 1, ',', nil, 0, nil})                      // unknown key
+	g.add("witness", true, c01Case{nil, 0, []string{"a"}, []string{"a"}, [][]string{{""}, {"x"}}, g.huge, nil, 1, ',', nil, 0, nil})
+	g.add("witness", true, c01Case{nil, 0, []string{"unnamed__1", "", "k"}, []string{"k"}, [][]string{{"1", "2", "b"}, {"3", "4", "a"}}, g.huge, nil, 1, ',', nil, 0, nil}) // renamed to unnamed__2
+	g.add("witness", true, c01Case{nil, 0, ab, []string{"a", "a"}, [][]string{{"2", "x"}, {"1", "y"}, {"2", "z"}}, 1, nil, 4, ',', nil, 0, nil})                            // e2f1265 key column named twice: refused
+	g.add("witness", true, c01Case{nil, 2, ab, []string{"b", "a", "b"}, [][]string{{"2", "x"}, {"1", "y"}}, 4096, nil, 1, ',', nil, 0, nil})
+	g.add("witness", true, c01Case{nil, 0, []string{"a", "a", "b"}, []string{"a"}, [][]string{{"1", "2", "x"}, {"1", "1", "y"}, {"1", "2", "z"}}, 1, nil, 1, ',', nil, 0, nil}) // KeyIndices takes every matching column
+	g.add("witness", true, c01Case{nil, 0, []string{"", "k", ""}, []string{"k"}, [][]string{{"1", "b", "2"}, {"3", "a", "4"}}, 1, nil, 1, ',', nil, 0, nil})                    // two empty names
+	g.add("witness", true, c01Case{nil, 1, []string{"a"}, []string{"a"}, [][]string{{""}, {"x"}}, 4096, nil, 1, ',', nil, 0, nil})                                              // known finding (export)
+	g.add("witness", true, c01Case{nil, 1, ab, []string{"a"}, [][]string{{"", ""}, {"x", "y"}}, 4096, nil, 1, ',', nil, 0, nil})
 	{
 		var rows [][]string
 		for i := 0; i < 300; i++ {
 			rows = append(rows, []string{fmt.Sprintf("%04d", i), "v"})
 		}
 		rows = append(rows, []string{"0254", "dup"})
-		g.add("witness", true, c01Case{nil, 0, ab, []string{"a"}, rows, g.huge, []int{1, 0}, 4, ',', nil, nil}) // fa79010
+		g.add("witness", true, c01Case{nil, 0, ab, []string{"a"}, rows, g.huge, []int{1, 0}, 4, ',', nil, 0, nil}) // fa79010
 	}
 	// ---- exhaustive tiny scope: cells {"", a, b}; every key choice; run sizes 1 / ~2 rows / none ----
 	vals := []string{"", "a", "b"}
@@ -1219,7 +1342,7 @@ func genC01(ctx *Ctx) []Case {
 			for pi, pk := range pks {
 				for ri, rs := range []uint64{1, 17, g.huge} {
 					g.add("exh", len(prefix) >= 2, c01Case{nil, 0, c01ColNames(ncols), pk, prefix, rs, []int{ri, pi % 2},
-						c01Workers[(pi+ri)%len(c01Workers)], ',', nil, nil})
+						c01Workers[(pi+ri)%len(c01Workers)], ',', nil, 0, nil})
 					ctx.Count("exhaustive_cases")
 				}
 			}
@@ -1245,6 +1368,10 @@ func genC01(ctx *Ctx) []Case {
 	}
 	for i := 0; i < n; i++ {
 		k := g.randTable(800, false)
+		if i%3 == 1 {
+			k.Style = 1 + ctx.Pick(7)
+			ctx.Count("rand_with_text_style")
+		}
 		g.add("rand", len(k.Rows) >= 2, k)
 	}
 	// big cells
@@ -1265,6 +1392,30 @@ func genC01(ctx *Ctx) []Case {
 		}
 		ctx.Count(fmt.Sprintf("bigcell_%d", ln))
 		g.add("bigcell", true, k)
+	}
+	// ---- raw CSV text: unquoted cells with leading / trailing blanks, CRLF, no final newline ----
+	g.add("witness", true, c01Case{Kind: 0, Columns: []string{"k", " v"}, PKNames: []string{"k"}, Style: c01StyleRaw,
+		Rows: [][]string{{"7", "a"}, {" 7", " alice"}, {"7 ", "b "}, {" ", "  "}, {"", "\t"}}, RunSize: g.huge, Workers: 1, Delim: ','})
+	g.add("witness", true, c01Case{Kind: 1, Columns: []string{" k", "v "}, PKNames: []string{" k"}, Style: c01StyleRaw | c01StyleCRLF | c01StyleNoFinal,
+		Rows: [][]string{{"7", "a"}, {" 7", " alice"}, {"7 ", "b "}}, RunSize: 4096, Workers: 1, Delim: ','})
+	nraw := 60
+	if ctx.Thorough() {
+		nraw = 1200
+	}
+	for i := 0; i < nraw; i++ {
+		kind := 0
+		if i%10 == 9 {
+			kind = 1
+		}
+		k := g.rawTable(kind)
+		if kind == 1 {
+			if !c01CLINames(k.Columns) {
+				k.Kind = 0
+			} else if k.RunSize == g.huge {
+				k.RunSize = 1 << 30
+			}
+		}
+		g.add("raw-text", len(k.Rows) >= 2, k)
 	}
 	// ---- forced worker schedules: blocks complete out of offset order ----
 	nf := 4
